@@ -11,7 +11,7 @@ _ENV = {'VERIF_DIR': '/verif'}
 def _t(name, kind, quick, thorough, tsecs):
     # cost is ~30 ms per case (ASan build: up to 9 certificates parsed, up to 5 signature verifications)
     d = dict(name=name, src=_SRC, libs=['-lcrypto'], wraps=WRAPS, env=_ENV,
-             quick=dict(cases=quick, secs=70), thorough=dict(cases=thorough, secs=tsecs))
+             quick=dict(cases=quick, secs=70, shrink_secs=20), thorough=dict(cases=thorough, secs=tsecs))
     d['defs'] = ['C03_HDR_' + _HDR] + (['C03_KIND=%d' % kind] if kind is not None else [])
     return d
 
